@@ -310,19 +310,19 @@ func functionEnv(f starlark.Callable) (starlark.Value, string, error) {
 
 // newEnvPickler returns the pickler for a single encoding of a function's environment.
 //
-// Functions and function code are pickled after their arguments, so a function that refers to
-// itself--through its globals, its free variables, its default parameter values, or any data
-// reachable from those--would otherwise be pickled forever. The encoder only consults the pickler
-// for values that it has not finished encoding, so being asked about the same function or function
-// code a second time means that the value is reachable from itself. Such a reference is pickled as
+// Functions, function code and builtins are pickled after their arguments, so a function that
+// refers to itself--through its globals, its free variables, its default parameter values, or any
+// data reachable from those--would otherwise be pickled forever. The encoder only consults the
+// pickler for values that it has not finished encoding, so being asked about the same value a
+// second time means that the value is reachable from itself. Such a reference is pickled as
 // (NEWOBJ "dawn" "Recursive" (name, index)), where index is the position of the value among the
-// functions and function code seen by this encoding. The index identifies the referent, so the
+// functions, function code and builtins seen by this encoding. The index identifies the referent, so the
 // encoding still determines the environment.
 func newEnvPickler() pickle.PicklerFunc {
 	seen := map[starlark.Value]int{}
 	return func(x starlark.Value) (module, name string, args starlark.Tuple, err error) {
 		switch x.(type) {
-		case *starlark.FunctionCode, *starlark.Function:
+		case *starlark.Builtin, *starlark.FunctionCode, *starlark.Function:
 			if index, ok := seen[x]; ok {
 				name := x.(interface{ Name() string }).Name()
 				return "dawn", "Recursive", starlark.Tuple{starlark.String(name), starlark.MakeInt(index)}, nil
@@ -335,7 +335,8 @@ func newEnvPickler() pickle.PicklerFunc {
 
 // envPickler provides support for pickling functions and modules.
 //
-// - Builtins are pickled as (NEWOBJ "dawn" "Builtin" ())
+// - Builtins are pickled as (NEWOBJ "dawn" "Builtin" (name, receiver)), where receiver is None
+//   unless the builtin is a bound method
 // - Function code is pickled as (NEWOBJ "dawn" "FunctionCode" (module, globals, bytecode))
 // - Functions are pickled as (NEWOBJ "dawn" "Function" (defaults, freevars, code)).
 // - The placeholder default of a required keyword-only parameter is pickled as (NEWOBJ "dawn" "Mandatory" ()).
@@ -344,7 +345,11 @@ func envPickler(x starlark.Value) (module, name string, args starlark.Tuple, err
 	case *function:
 		return "dawn", "Target", starlark.Tuple{starlark.String(x.label.String())}, nil
 	case *starlark.Builtin:
-		return "dawn", "Builtin", starlark.Tuple{}, nil
+		receiver := x.Receiver()
+		if receiver == nil {
+			receiver = starlark.None
+		}
+		return "dawn", "Builtin", starlark.Tuple{starlark.String(x.Name()), receiver}, nil
 	case *starlark.FunctionCode:
 		module, globals := x.ModuleEnv()
 		return "dawn", "FunctionCode", starlark.Tuple{module, globals, starlark.Bytes(x.Bytecode())}, nil
@@ -363,7 +368,8 @@ func envPickler(x starlark.Value) (module, name string, args starlark.Tuple, err
 
 // envUnpickler provides support for unpickling functions and modules.
 //
-//   - Builtins are unpickled from (NEWOBJ "dawn" "Builtin" ()) into ()
+//   - Builtins are unpickled from (NEWOBJ "dawn" "Builtin" (name, receiver)) into (name, receiver).
+//     Environments recorded by earlier versions hold (NEWOBJ "dawn" "Builtin" ()).
 //   - Function code is unpickled from (NEWOBJ "dawn" "FunctionCode" (module, globals, bytecode))
 //     into a dictionary.
 //   - Functions are unpickled from (NEWOBJ "dawn" "Function" (defaults, freevars, code))
@@ -384,8 +390,8 @@ func envUnpickler(module, name string, args starlark.Tuple) (starlark.Value, err
 		}
 		return args[0], nil
 	case "Builtin":
-		if len(args) != 0 {
-			return nil, fmt.Errorf("expected 0 args, got %v", len(args))
+		if len(args) != 0 && len(args) != 2 {
+			return nil, fmt.Errorf("expected 0 or 2 args, got %v", len(args))
 		}
 		return args, nil
 	case "Recursive":
